@@ -555,3 +555,4 @@ macro_rules! selfping_inst {
 }
 selfping_inst!(c14_self_ping_refused_awaiting_pong = STAGE_PONG, c14_self_ping_refused_awaiting_peng = STAGE_PENG,
                c14_self_ping_refused_lingering = WAITING_TO_CLOSE, c14_self_ping_refused_closing = CLOSING);
+
